@@ -65,6 +65,14 @@ theorem C03_wilson_stratified (musf Cvb : ℝ) :
     ring
   · rfl
 
+/-- The pressure identity at full strength: for EVERY bed concentration handed in, pressure loss = head loss *at that bed concentration* · g · ρl
+(the source passes the default 0.6 on; the statement holds because the head loss does not depend on the argument — if a change makes it depend
+on it, this is the theorem that no longer checks). -/
+theorem C03_wilson_stratified_any_bed (musf Cvb : ℝ) :
+    wilson_stratified.stratified_pressure_loss vls Dp d eps nu rhol rhos musf Cv Cvb
+      = wilson_stratified.stratified_head_loss vls Dp d eps nu rhol rhos musf Cv Cvb * g * rhol := by
+  rfl
+
 theorem C03_wilson_v50 (d85 musf : ℝ) :
     wilson_v50.heterogeneous_head_loss vls Dp d d85 eps nu rhol rhos Cv musf
       = wilson_v50.Erhg vls Dp d d85 eps nu rhol rhos musf * Rsd * Cv + ILv ∧
